@@ -465,7 +465,8 @@ func init() {
 				r.Check(elem == "", id, name+"#remaining-records-keep-their-order", firstNonEmpty(elem, c.Pos(fn.Pos())), "the deletion assigns the record sequence as a whole (shift) and stores no single element into it")
 			}
 			if n < 2 {
-				r.Shortfall(c, id, fmt.Sprintf("%s: only %d deletion variants that change the record sequence", id, n))
+				// a variant that no longer assigns the sequence is C19.7's finding (content effects differ); here it is only not decided
+				r.Undec(id, "structures.WritableBTreeV2#deletion-variants-assign-the-record-sequence", "", fmt.Sprintf("only %d deletion variants assign the record sequence directly", n))
 			}
 		}
 	}
